@@ -3,8 +3,11 @@ import subprocess, sys, os, re
 REPO='/tmp/repo-c13'; F=REPO+'/qsmtpd/backends/user_vpopm/vpop.c'
 def restore():
     subprocess.run(['git','-C',REPO,'checkout','--','.'],check=True)
-    for f in ('dotdot', 'dashscan', 'nametoolong'):
-        subprocess.run(['git','-C',REPO,'apply','/root/w/c13/fixes/C13-%s.diff' % f],check=True)
+    # fixes of C13 that are not yet commits of the scratch repo's HEAD
+    for f in ('dotdot', 'dashscan', 'nametoolong', 'cdb-bounds', 'dirfd-leak'):
+        d = '/root/w/c13/fixes/C13-%s.diff' % f
+        if subprocess.run(['git','-C',REPO,'apply','--check',d],stderr=subprocess.DEVNULL).returncode == 0:
+            subprocess.run(['git','-C',REPO,'apply',d],check=True)
 MUTS = {
  'M1-revert-dotdot': [("	if ((localpart->len > 0) && (localpart->len <= 2) && (memcmp(localpart->s, \"..\", localpart->len) == 0))\n		return 0;\n", "")],
  'M2-revert-dashscan': [("p = memchr(p + 1, '-', localpart->len - (p + 1 - localpart->s));", "p = strchr(p + 1, '-');")],
@@ -24,6 +27,20 @@ MUTS2 = {
  'M14-addrsyntax-no-lowercase': ('qsmtpd/addrsyntax.c', [("addr->s[len] = addr->s[len] + ('a' - 'A');", "addr->s[len] = addr->s[len];")]),
  'M15-reply-code-551': ('qsmtpd/addrparse.c', [('"550 5.1.1 no such user <"', '"551 5.1.1 no such user <"')]),
 }
+MUTS2.update({
+ 'M16-cdb-no-header-size-check': ('lib/cdb.c', [("	if (size < 256 * 8)\n		goto corrupt;\n", "")]),
+ 'M17-cdb-table-check-off-by-one': ('lib/cdb.c', [("(lenhash > (size - pos) / 8)", "(lenhash > (size - pos) / 8 + 1)")]),
+ 'M18-cdb-no-table-check': ('lib/cdb.c', [("		if ((pos > size) || (lenhash > (size - pos) / 8))\n			goto corrupt;\n", "")]),
+ 'M19-cdb-record-header-check-short': ('lib/cdb.c', [("(size - poskd < 8)", "(size - poskd < 4)")]),
+ 'M20-cdb-no-key-data-check': ('lib/cdb.c', [("					if ((size - poskd - 8 < len) || (size - poskd - 8 - len < dlen))\n						goto corrupt;\n", "")]),
+ 'M21-cdb-no-slot-wrap': ('lib/cdb.c', [("			if (++h2 == lenhash)\n				h2 = 0;", "			++h2;")]),
+ 'M22-cdb-start-slot-no-shift': ('lib/cdb.c', [("uint32_t h2 = (h >> 8) % lenhash;", "uint32_t h2 = h % lenhash;")]),
+ 'M23-cdb-empty-slot-ignored': ('lib/cdb.c', [("			if (!poskd)\n				break;\n", "")]),
+ 'M24-vget-three-fields': ('qsmtpd/backends/user_vpopm/vpop.c', [("for (int i = 4; i > 0; i--) {", "for (int i = 3; i > 0; i--) {")]),
+ 'M25-vget-no-slash-strip': ('qsmtpd/backends/user_vpopm/vpop.c', [("	while (*(cdb_buf + len - 1) == '/')\n		--len;\n", "")]),
+ 'M26-vget-unbounded-field': ('qsmtpd/backends/user_vpopm/vpop.c', [("memchr(cdb_buf, '\\0', cdb_end - cdb_buf)", "strchr(cdb_buf, '\\0')")]),
+ 'M27-cdb-hash-unsigned': ('lib/cdb.c', [("h ^= (uint32_t) *buf++;", "h ^= (uint32_t)(unsigned char) *buf++;")]),
+})
 which = sys.argv[1:] or list(MUTS)
 for name in which:
     restore()
@@ -53,6 +70,9 @@ for name in which:
         if cs:
             f=cs.group(1).split()
             dec=lambda x: b'' if x=='-' else bytes.fromhex(x)
-            print('    local=%r tail=%r layout=%r bounce=%r' % (dec(f[5])[:40], dec(f[6]), dec(f[3])[:80], dec(f[4])))
+            if len(f) == 7:
+                print('    local=%r tail=%r layout=%r bounce=%r' % (dec(f[5])[:40], dec(f[6]), dec(f[3])[:80], dec(f[4])))
+            else:
+                print('    op=%s file=%d bytes key=%r' % (f[0], len(dec(f[1])), dec(f[2]) if len(f) > 2 else b''))
             print('    impl=%s' % re.search(r'^implementation=(.*)$',r,flags=re.M).group(1)[:80])
 restore()
